@@ -3,8 +3,6 @@
 package cl
 
 import (
-	"math/big"
-
 	"github.com/ohler55/slip"
 )
 
@@ -41,41 +39,13 @@ type Max struct {
 // Call the function with the arguments provided.
 func (f *Max) Call(s *slip.Scope, args slip.List, depth int) slip.Object {
 	slip.CheckArgCount(s, depth, f, args, 1, -1)
-	pos := 0
-	max := args[pos]
+	max := args[0]
 	if _, ok := max.(slip.Real); !ok {
 		slip.TypePanic(s, depth, "reals", max, "real")
 	}
-	pos++
-	for ; pos < len(args); pos++ {
-		arg, mx := slip.NormalizeNumber(args[pos], max)
-		switch ta := arg.(type) {
-		case slip.Fixnum:
-			if mx.(slip.Fixnum) < ta {
-				max = args[pos]
-			}
-		case slip.SingleFloat:
-			if mx.(slip.SingleFloat) < ta {
-				max = args[pos]
-			}
-		case slip.DoubleFloat:
-			if mx.(slip.DoubleFloat) < ta {
-				max = args[pos]
-			}
-		case *slip.LongFloat:
-			if (*big.Float)(mx.(*slip.LongFloat)).Cmp((*big.Float)(ta)) < 0 {
-				max = args[pos]
-			}
-		case *slip.Bignum:
-			if (*big.Int)(mx.(*slip.Bignum)).Cmp((*big.Int)(ta)) < 0 {
-				max = args[pos]
-			}
-		case *slip.Ratio:
-			if (*big.Rat)(mx.(*slip.Ratio)).Cmp((*big.Rat)(ta)) < 0 {
-				max = args[pos]
-			}
-		case slip.Complex:
-			slip.TypePanic(s, depth, "reals", arg, "real")
+	for _, arg := range args[1:] {
+		if compareReals(arg, max) == 1 {
+			max = arg
 		}
 	}
 	return max
